@@ -126,6 +126,21 @@ pub(crate) fn p_multi_part_id<'s>(is: &mut Stream<'s>) -> ModalResult<&'s str> {
     Ok(dec_str)
 }
 
+/// Is `name` exactly one multi part id (e.g. account name) of the journal grammar?
+///
+/// This accepts the same language as [`p_multi_part_id`], anchored at both ends.
+pub(crate) fn is_multi_part_id(name: &str) -> bool {
+    let mut parts = name.split(':');
+    let first_ok = match parts.next() {
+        Some(first) => {
+            let mut cs = first.chars();
+            cs.next().is_some_and(id_start_char) && cs.all(id_char)
+        }
+        None => false,
+    };
+    first_ok && parts.all(|part| !part.is_empty() && part.chars().all(id_char))
+}
+
 #[cfg(test)]
 mod tests {
     use super::*;
